@@ -14,6 +14,9 @@ let tl s k = String.sub s k (String.length s - k)
 let action_of a =
   if a = "-" || a = "wr" || a = "zw" then Some ANop else   (* wr, zw: epilogues of the harness without observable events *)
   match a.[0] with
+  | 't' when String.length a > 1 && (a.[1] = 'a' || a.[1] = 'u') ->
+    (* the relative entry points: tickit_watch_timer_after_msec / _after_tv: a deadline, like any other *)
+    (match ints (tl a 2) with [d; fl; cb] -> Some (ATimer (zi (if a.[1] = 'a' then d * 1000 else d), flags_of fl, zi cb)) | _ -> failwith "ta")
   | 't' -> (match ints (tl a 1) with [d; fl; cb] -> Some (ATimer (zi d, flags_of fl, zi cb)) | _ -> failwith "t")
   | 'l' -> (match ints (tl a 1) with [fl; cb] -> Some (ALater (flags_of fl, zi cb)) | _ -> failwith "l")
   | 'w' ->
